@@ -179,6 +179,17 @@ def _register_compiler():
 _register_compiler()
 
 
+def _register_subquery():
+    """C08 (bld-sub): SubqueryTable, EvalConstantSubquery1D, the IN / NOT IN operator node; spec, translator rules and the
+    structural reading of the column factory in src_subquery.py"""
+    from . import src_subquery
+    GROUPS['subquery'] = ('SrcSubquery.v', src_subquery.spec_subquery,
+                          {'translator': src_subquery.SubqueryGroup, 'prims': src_subquery.PRIMS})
+
+
+_register_subquery()
+
+
 def generate(group):
     """Regenerate coq/Gen/Src<Group>.v from the live source; raises py2mini.Untranslatable (fail closed)."""
     fname, spec, *rest = GROUPS[group]
